@@ -282,6 +282,34 @@ def chained(R, rng, tier):
                                              "report's results are %s" % (step, listed, r["exit"], want), "input": inp, "observed": [(x["test_id"], x["line_number"]) for x in rep],
                                      "signature": None})
             prev_report, prev_counts = out, {t: sum(1 for x in rep if x["test_id"] == t) for t in {x["test_id"] for x in rep}}
+    # unchanged code against its own report lists nothing and exits 0 - whatever the code looks like (several findings of one
+    # identity on one line, several identities on one line) and however it reaches bandit (a file, several files, standard input)
+    own = ["import hashlib\nzz_d = hashlib.md5(zz_a).digest() + hashlib.md5(zz_b).digest()\n", "import random\nzz_r = random.random() * random.random()\n",
+           "assert zz_a; assert zz_b\nzz_v = eval(zz_x) or eval(zz_x)\n", "import pickle\nzz_p = pickle.loads(zz_a), pickle.loads(zz_b), eval(zz_c)\n"]
+    for k, src in enumerate(own):
+        for channel in ("file", "stdin", "file+stdin"):
+            f1 = os.path.join(d, "own%d.py" % k)
+            open(f1, "w").write(src)
+            rep1 = os.path.join(d, "own%d.json" % k)
+            targets = {"file": [f1], "stdin": ["-"], "file+stdin": [f1, "-"]}[channel]
+            sb = src.encode() if "stdin" in channel else None
+            r1 = climain.run_main(["-q", "-f", "json", "-o", rep1, "--exit-zero"] + targets, stdin_bytes=sb)
+            r2 = climain.run_main(["-q", "-f", "json", "-b", rep1] + targets, stdin_bytes=sb)
+            R.case(("own-report", k, channel), nontrivial=True, sample={"program": src, "channel": channel, "exit": r2["exit"]})
+            R.count("own-report:" + channel)
+            inp = {"program": src, "channel": channel, "argv": ["-q", "-f", "json", "-b", "<its own report>"] + [os.path.basename(t) for t in targets]}
+            try:
+                n1 = len(json.load(open(rep1))["results"])
+                listed = json.loads(r2["stdout"][r2["stdout"].index("{"):])["results"]
+            except Exception:  # noqa: BLE001
+                R.violations.append({"what": "no report for unchanged code against its own report (%s)" % (r2["exception"] or r1["exception"] or r2["exit"]), "input": inp,
+                                     "observed": (r2["traceback"] or r2["stderr"] or "")[-300:], "signature": None})
+                continue
+            if n1 == 0:
+                R.broken.append({"what": "harness: the own-report program has no findings", "input": inp})
+            if listed or r2["exit"] != 0:
+                R.violations.append({"what": "unchanged code (%d findings) scanned against its own report through %s lists %d findings and exits %s" % (n1, channel, len(listed), r2["exit"]),
+                                     "input": inp, "observed": [(x["test_id"], x["line_number"], x["col_offset"]) for x in listed][:6], "signature": None})
     # one manager, queried before and after baselines are loaded
     base = [mk_issue(IDENTS[k], 100 + j) for j, k in enumerate((0, 1))]
     cur = [mk_issue(IDENTS[k], 1 + j) for j, k in enumerate((0, 1, 2, 3))]
